@@ -10,7 +10,7 @@ REPO = os.environ.get("VERIF_REPO", "/repo")
 META = {
     "technique": "TLC model checking of MarketRouting (every subset of a 5-market universe x messages for every "
                  "market, 24 routes) + TLC-generated scenarios and seeded random sessions executed on the real "
-                 "mapper / Bitfinex validator (loopback websocket) / transformers with payloads from a simulated "
+                 "subscription indexer / mapper / Bitfinex validator (loopback websocket) / transformers with payloads from a simulated "
                  "venue, validated line by line by TLC (Trace_MarketRouting)",
     "level_text": "model_checking",
     "level_note": "exhaustive for the bounded TLC models; the implementation is bound by trace validation of "
@@ -24,6 +24,14 @@ ASSUMPTIONS = [
     "(Connector::requests), never from the connector's internal subscription id",
     "instruments of one subscription set have distinct venue names; `MarketInstrumentData` instruments are "
     "subscribed with the venue's own symbol as name_exchange",
+    "three instrument flavours per route: Keyed<u32, MarketDataInstrument>, MarketInstrumentData<u32>, and the indexed "
+    "flavour: an IndexedInstruments collection of the route's whole universe + the real "
+    "index_market_data_subscription_batches (as the indexed dynamic stream builder does) -> "
+    "Keyed<InstrumentIndex, MarketDataInstrument>; the event must carry the InstrumentIndex of exactly the instrument "
+    "subscribed under the market; universe instruments are pairwise distinguishable by (exchange, kind, base, quote)",
+    "L1 routes (Binance book ticker, Kraken spread): an empty book side is sent as price 0 / amount 0 (the convention "
+    "the connectors' own `is_zero` guards in binance/book/l1.rs and kraken/book/l1.rs encode); the event must then "
+    "state exactly the other side and no level for the empty one",
     "future/option market strings are taken as the mapper formats them, EXCEPT the expiry component, which the "
     "simulated venue renders itself from the contract's calendar expiry date in the venue's documented format: OKX "
     "YYMMDD (doc comment of okx/market.rs::format_expiry: '230526' = 26th of May 2023; fixtures 'BTC-USD-191227', "
@@ -248,13 +256,14 @@ def check(ctx):
     p_b, scn_b = ctx.tlc_gen("Gen_" + MODULE, "GenB_MarketRouting.cfg", "behaviours.ndjson", simulate=(nb, 30), timeout=900)
     ctx.sample({"kind": "TLC scenario (subset x message), run on every route and flavour", "scenario": scn_t[len(scn_t) // 2]})
     ctx.sample({"kind": "TLC simulated session", "scenario": {"evs": scn_b[0]["evs"][:8]}})
-    per_scn = len(table) * 2
     for label, scn, n in (("transitions", p_t, len(scn_t)), ("behaviours", p_b, len(scn_b))):
         out = ctx.path("trace_%s.ndjson" % label)
-        info = ctx.harness("c13", "run", "--scenarios", scn, "--out", out)
+        # generated items range over the four L1 side values: on other routes the one-sided ones are
+        # duplicates (skipped in the exhaustive set, mapped to buy/sell in the sessions)
+        info = ctx.harness("c13", "run", "--scenarios", scn, "--out", out, "--onesided", "skip" if label == "transitions" else "map")
         arms(ctx, info)
         keep = validate(ctx, out, label)
-        ctx.cov["scenarios_replayed"] += n * per_scn
+        ctx.cov["scenarios_replayed"] += sum(1 for l in keep if l["a"] == "Reset")
         if label == "transitions":
             ok = [l for l in keep if l["a"] == "Message" and l["out"] and l["out"][0]["k"] == "ev"]
             if ok:
